@@ -174,6 +174,16 @@ def assign_agree(repo: Repo, rep):
         rep.floor("R-ASSIGN-AGREE", f"result growth sites in {cname}.assign", grows, 2)
 
 
+def insert_helpers(repo: Repo, f: Func) -> Set[str]:
+    """names of nested helpers / methods of the same class that return an insert change"""
+    out = set()
+    for g in repo.funcs.values():
+        same_class_method = f.cls is not None and g.cls is not None and g.cls in repo.mro(f.cls) and g.parent is None
+        if (g.parent is f or same_class_method) and any(isinstance(r, ast.Return) and isinstance(r.value, ast.Call) and isinstance(r.value.func, ast.Name) and r.value.func.id in INSERT_KINDS for r in body_nodes(g.node)):
+            out.add(g.name)
+    return out
+
+
 def pending_containers(repo: Repo, f: Func) -> Set[str]:
     """Locals consumed by a `yield <insert change>(...)` (directly or through a loop over them)."""
     kinds = set(change_classes(repo))
@@ -181,10 +191,14 @@ def pending_containers(repo: Repo, f: Func) -> Set[str]:
     # nested helpers that build an insert change from their arguments
     helpers = set()
     for g in repo.funcs.values():
-        if g.parent is f and any(isinstance(r, ast.Return) and isinstance(r.value, ast.Call) and isinstance(r.value.func, ast.Name) and r.value.func.id in INSERT_KINDS for r in body_nodes(g.node)):
+        same_class_method = f.cls is not None and g.cls is not None and g.cls in repo.mro(f.cls) and g.parent is None
+        if (g.parent is f or same_class_method) and any(isinstance(r, ast.Return) and isinstance(r.value, ast.Call) and isinstance(r.value.func, ast.Name) and r.value.func.id in INSERT_KINDS for r in body_nodes(g.node)):
             helpers.add(g.name)
     for y in body_nodes(f.node):
-        if isinstance(y, ast.Yield) and isinstance(y.value, ast.Call) and isinstance(y.value.func, ast.Name) and (y.value.func.id in INSERT_KINDS or y.value.func.id in helpers):
+        callee = None
+        if isinstance(y, ast.Yield) and isinstance(y.value, ast.Call):
+            callee = y.value.func.id if isinstance(y.value.func, ast.Name) else y.value.func.attr if isinstance(y.value.func, ast.Attribute) else None
+        if callee is not None and (callee in INSERT_KINDS or callee in helpers):
             for x in ast.walk(y.value):
                 if isinstance(x, ast.Name):
                     out.add(x.id)
@@ -252,7 +266,7 @@ def flush(repo: Repo, rep):
                     body = reach(cfg, [b for b, l in nd.succ if l == "iter"], blocked_nodes=[nd])
                     if any(b.is_yield and any(k in norm(b.ast) for k in INSERT_KINDS) for b in body):
                         flushes.append(nd)
-                if nd.is_yield and any(k + "(" in norm(nd.ast) for k in INSERT_KINDS) and any(isinstance(x, ast.Name) and x.id in derived for x in ast.walk(nd.ast)):
+                if nd.is_yield and (any(k + "(" in norm(nd.ast) for k in INSERT_KINDS) or any(h + "(" in norm(nd.ast) for h in insert_helpers(repo, f))) and any(isinstance(x, ast.Name) and x.id in derived for x in ast.walk(nd.ast)):
                     flushes.append(nd)
             resets = [nd for nd in cfg.stmts(ast.Assign) if any(isinstance(t, ast.Name) and t.id == X for t in nd.ast.targets) and isinstance(nd.ast.value, (ast.List, ast.Dict, ast.Call))]
             skip = [(c, "F") for c in cfg.conds() if isinstance(c.ast, ast.Name) and c.ast.id == X]
@@ -266,7 +280,7 @@ def flush(repo: Repo, rep):
                     rep.violation("R-FLUSH", f, lost[0].ast, f"{f.qualname}: `{X}` is reset while it still holds pending inserts (no insert change yielded in between)", construct=f"{X}:reset")
                 else:
                     rep.ok("R-FLUSH", f, a.ast, f"`{X}` always flushed by an insert change")
-    rep.floor("R-FLUSH", "accumulation sites", n, 4)
+    rep.floor("R-FLUSH", "accumulation sites", n, 2)
 
 
 def same_type(repo: Repo, rep):
